@@ -17,7 +17,7 @@ EXPLANATION = (
     "Decided: R28.1 enqueue's return expression equals try_push's result for both values (and try_push returns bool); R28.2 in "
     "Logger::operator() every path from the entry, and from each process_logline call, to the return passes a failed try_pop edge or "
     "the empty-string sentinel edge; each successful pop reaches release(); R28.3 stop(): request_stop ≺ enqueue(sentinel) ≺ join; "
-    "send(): enqueue only under is_loggable(level); `_sequence`/`_osequence` are written only in process_logline; R28.4 every line inserted into the log stream is flushed (endl/flush) before process_logline returns, or else the consumer flushes on every path from a written line to its return; R28.5 the second (outbound) counter is advanced only under the direction flag; R28.6 the consumer's stop test reads only a field of the popped element that no logged line can set to stop()'s marker (never the text); R28.7 no read of `_stopping` lies between a failed try_pop and the return. NOT decided: "
+    "send(): enqueue only under is_loggable(level); `_sequence`/`_osequence` are written only in process_logline; R28.4 every line inserted into the log stream is flushed (endl/flush) before process_logline returns, or else the consumer flushes on every path from a written line to its return; R28.5 the second (outbound) counter is advanced only under the direction flag; R28.6 the consumer's stop test reads only a field of the popped element that no logged line can set to stop()'s marker (never the text); R28.7 no read of `_stopping` lies between a failed try_pop and the return; R28.8 no path from a failed try_pop reaches the return without another poll (a claimed, unpublished producer slot makes pop report empty with complete lines behind it). NOT decided: "
     "producer interleavings, queue internals (C30).")
 
 L = 'FIX8::Logger::'
@@ -245,6 +245,20 @@ def run(ctx):
               'no read of the stop flag lies between a failed pop and the return (the flag is sampled before the pop, or the queue is polled again)',
               'the stop flag is read at %s AFTER try_pop found the queue empty and the thread can return on it without polling again: a line accepted and a stop '
               'requested in between are both missed (1 line, immediate stop: about 1 round in 1500 loses the line)' % (late_reads[0].loc if late_reads else ''))
+    # ---------------- R28.8 a failed poll is not the end of the queue: ff's multi-producer push claims its slot first and publishes it later, and pop() reports
+    # "empty" at a claimed, unpublished slot although later slots are complete.  The thread may therefore never return on a failed pop (whatever the stop flag says):
+    # the only way out is the element stop() queues behind everything accepted before it.
+    leaving = []
+    for br in pops:
+        for s0 in q.atom_edge(cfg, br, False):
+            region = cfg.reach_from(s0, avoid=popv) | {s0}
+            if region & exits_:
+                leaving.append(cfg.V[cfg.block_last[br[0]]].node)
+    ctx.check(not leaving, 'R28.8', L + 'operator()#failed-poll-never-exits', (leaving[0].loc if leaving and leaving[0] is not None else op.loc),
+              'no path leads from a failed try_pop to the return without polling again: the thread leaves only on the stop element',
+              'the thread can return after try_pop reported an empty queue: while another producer holds a claimed but unpublished slot the pop fails although complete '
+              'lines are queued behind it, so a line whose send() returned true before stop() is never written')
+    ctx.floor('R28.8', 1)
     ctx.floor('R28.7', 1)
     ctx.floor('R28.6', 1)
     ctx.floor('R28.4', 1)
